@@ -41,10 +41,14 @@ var seqCounter atomic.Int64
 type seqPaths struct {
 	base string
 	has  map[string]bool
+	cur  map[string]string // content name now at the path of each slot
 }
 
-func newSeqPaths() *seqPaths {
-	return &seqPaths{base: filepath.Join(M.dir, fmt.Sprintf("h%d", seqCounter.Add(1))), has: map[string]bool{}}
+func newSeqPaths(dir string) *seqPaths {
+	if dir == "" {
+		dir = M.dir
+	}
+	return &seqPaths{base: filepath.Join(dir, fmt.Sprintf("h%d", seqCounter.Add(1))), has: map[string]bool{}, cur: map[string]string{}}
 }
 
 func (sp *seqPaths) path(slot string) string { return sp.base + "-" + slot + ".pem" }
@@ -65,10 +69,15 @@ func (sp *seqPaths) set(slot, name string) error {
 	if name == "" || name == "absent" {
 		if sp.has[slot] {
 			sp.has[slot] = false
+			sp.cur[slot] = ""
 			return os.Remove(p)
 		}
 		return nil
 	}
+	if sp.has[slot] && sp.cur[slot] == name {
+		return nil // the file stays as it is
+	}
+	sp.cur[slot] = name
 	b, ok := M.content[slot+"-"+name]
 	if !ok {
 		return fmt.Errorf("no content %q for slot %s", name, slot)
@@ -149,7 +158,7 @@ func fingerprint(o *obs) string {
 
 // checkHistory executes one history on the real code.
 func checkHistory(c Case, st *stats) (fs []fail) {
-	sp := newSeqPaths()
+	sp := newSeqPaths(st.dir)
 	defer sp.remove()
 	type rec struct {
 		eff Case
@@ -200,7 +209,7 @@ func checkHistory(c Case, st *stats) (fs []fail) {
 			st.nontrivial++
 		}
 		// behaviour of the configuration obtained at this point of the history
-		if !r.bad && o.err == nil && o.panicked == "" && !o.opaque && o.cfg != nil {
+		if o.err == nil && o.panicked == "" && !o.opaque && o.cfg != nil {
 			for _, scen := range s.Scenarios {
 				oo := buildAt(raw, sp)
 				st.evals++
@@ -325,9 +334,13 @@ func histFamilies(thorough bool) []histFamily {
 			}
 		}
 	}
+	idDepth := 2
+	if thorough {
+		idDepth = 3
+	}
 	return []histFamily{
 		{"H-CA", ca, 3, []string{"A/srv.test", "B/srv.test"}},
-		{"H-ID", id, 3, []string{"A/srv.test"}},
+		{"H-ID", id, idDepth, []string{"A/srv.test"}},
 		{"H-X", x, 2, nil},
 	}
 }
